@@ -402,6 +402,20 @@ def _populate(d):
     with open(os.path.join(bad2, "DiskDescriptor.xml"), "w") as f:
         f.write(BH.descriptor_xml(24, [(0, 24, [(BH.DEFAULT_TOP, "Weird", "x.hds")])], [(BH.DEFAULT_TOP, BH.NULL_GUID)]))
     open(os.path.join(bad2, "x.hds"), "wb").close()
+    # bundles whose descriptor names an image in another spelling than the file has (written on a case-insensitive volume), or
+    # names no existing file at all; and one left by an interrupted update (empty descriptor next to its .Backup)
+    for nm, listed, present in (("othercase.hdd", "Harddisk.hds", "harddisk.hds"), ("noimage.hdd", "gone.hds", "other.hds")):
+        dd = os.path.join(vm, nm)
+        os.makedirs(dd)
+        with open(os.path.join(dd, "DiskDescriptor.xml"), "w") as f:
+            f.write(BH.descriptor_xml(24, [(0, 24, [(BH.DEFAULT_TOP, "Compressed", listed)])], [(BH.DEFAULT_TOP, BH.NULL_GUID)]))
+        BH.build_hds([DATA, HOLE, DATA], [1, None, 2], 8, 2, 24, layer=1).write_to(os.path.join(dd, present))
+    dd = os.path.join(vm, "interrupted.hdd")
+    os.makedirs(dd)
+    open(os.path.join(dd, "DiskDescriptor.xml"), "w").close()
+    with open(os.path.join(dd, "DiskDescriptor.xml.Backup"), "w") as f:
+        f.write(BH.descriptor_xml(24, [(0, 24, [(BH.DEFAULT_TOP, "Compressed", "c.hds")])], [(BH.DEFAULT_TOP, BH.NULL_GUID)]))
+    BH.build_hds([DATA, HOLE, DATA], [1, None, 2], 8, 2, 24, layer=1).write_to(os.path.join(dd, "c.hds"))
     return vm, g0
 
 
@@ -559,6 +573,15 @@ def _work_paths(vm, g0):
     yield "path:hdd:plain-storages-1GiB-4GiB", hdd_big, False
     yield "path:hdd:missing-descriptor", expect_fail(lambda: hdd(Path(vm) / "nodesc.hdd")), True
     yield "path:hdd:unsupported-type", expect_fail(lambda: hdd(Path(vm) / "badtype.hdd")), True
+    # either answer is allowed (refusal, or the disk): nothing is created, changed or removed in the bundle
+    for nm in ("othercase.hdd", "noimage.hdd", "interrupted.hdd"):
+        def any_answer(nm=nm):
+            try:
+                hdd(Path(vm) / nm)
+            except Exception:
+                pass
+
+        yield f"path:hdd:{nm}", any_answer, True
     yield "path:hdd:unknown-guid", expect_fail(lambda: hdd(Path(vm) / "disk.hdd", "{99999999-0000-4000-8000-000000000000}")), True
 
 
